@@ -1,6 +1,6 @@
 /-
   SFModel.NALemmas7 — helper lemmas for C14, part 7: non-missing cells are never altered
-  (proved directly on the mirrored algorithm, for every state, both directions, fixed or not).
+  (proved directly on the mirrored algorithm, for every state, both directions).
 -/
 import SFModel.NALemmas6
 
@@ -112,13 +112,13 @@ theorem bridgeFill_keeps (fwd : Bool) (limit : Nat) (st : Option (Bridge α)) (c
         have := bridgeEnd_le limit bc (cells.length - s)
         exact htrail p (by omega) h3
 
-theorem stepDir_keeps (fwd : Bool) (limit : Nat) (fixed : Bool) (st : Option (Bridge α)) (b : RBlock α) :
-    Keeps isna b.cells (stepDir isna fwd limit fixed st b).1 := by
+theorem stepDir_keeps (fwd : Bool) (limit : Nat) (st : Option (Bridge α)) (b : RBlock α) :
+    Keeps isna b.cells (stepDir isna fwd limit st b).1 := by
   cases h : (b.others || (b.cells.map isna).any id) with
-  | false => rw [stepDir_shortcut fwd limit fixed st b h]; exact Keeps.refl _
+  | false => rw [stepDir_shortcut fwd limit st b h]; exact Keeps.refl _
   | true =>
     by_cases h1 : b.oneD = true ∧ b.tl = []
-    · rw [stepDir_oneD fwd limit fixed st b h h1]
+    · rw [stepDir_oneD fwd limit st b h h1]
       have hc : b.cells = [b.hd] := by simp [RBlock.cells, h1.2]
       rw [hc]
       unfold stepOneD
@@ -133,7 +133,7 @@ theorem stepDir_keeps (fwd : Bool) (limit : Nat) (fixed : Bool) (st : Option (Br
           simp at hx; subst hx
           simp [hn]
         | succ p => simp at hx
-    · rw [stepDir_twoD fwd limit fixed st b h h1]
+    · rw [stepDir_twoD fwd limit st b h h1]
       simp only
       rw [innerFill_fst]
       have hb := bridgeFill_keeps (isna := isna) fwd limit st b.cells b.hd
@@ -148,28 +148,28 @@ theorem orient_keeps (fwd : Bool) {l o : List α} (h : Keeps isna l o) :
   | true => simpa [orient] using h
   | false => simpa [orient] using h.reverse
 
-theorem runDir_keeps (fwd : Bool) (limit : Nat) (fixed : Bool) (st : Option (Bridge α))
+theorem runDir_keeps (fwd : Bool) (limit : Nat) (st : Option (Bridge α))
     (blocks : List (RBlock α)) :
     Keeps isna (blocks.map fun b => orient fwd b.cells).flatten
-      ((runDir isna fwd limit fixed st blocks).map (orient fwd)).flatten := by
+      ((runDir isna fwd limit st blocks).map (orient fwd)).flatten := by
   induction blocks generalizing st with
   | nil => exact Keeps.refl _
   | cons b bs ih =>
     simp only [runDir, List.map_cons, List.flatten_cons]
-    exact Keeps.append (orient_keeps fwd (stepDir_keeps fwd limit fixed st b)) (ih _)
+    exact Keeps.append (orient_keeps fwd (stepDir_keeps fwd limit st b)) (ih _)
 
 /-- `fillna_forward / fillna_backward (axis=1)`, the code as it is or repaired, any limit, any layout:
     every non-missing cell of the row is returned unchanged -/
-theorem rowDir_keeps (fwd : Bool) (limit : Nat) (fixed : Bool) (blocks : List (RBlock α)) :
-    Keeps isna (blocks.map RBlock.cells).flatten (rowDirAxis1 isna fwd limit fixed blocks).flatten := by
+theorem rowDir_keeps (fwd : Bool) (limit : Nat) (blocks : List (RBlock α)) :
+    Keeps isna (blocks.map RBlock.cells).flatten (rowDirAxis1 isna fwd limit blocks).flatten := by
   cases fwd with
   | true =>
-    have := runDir_keeps (isna := isna) true limit fixed none blocks
+    have := runDir_keeps (isna := isna) true limit none blocks
     have e : (orient true : List α → List α) = id := by funext l; simp [orient]
     rw [e] at this
     simpa [rowDirAxis1] using this
   | false =>
-    have := (runDir_keeps (isna := isna) false limit fixed none blocks.reverse).reverse
+    have := (runDir_keeps (isna := isna) false limit none blocks.reverse).reverse
     have e : (orient false : List α → List α) = List.reverse := by funext l; simp [orient]
     rw [e] at this
     simp only [rowDirAxis1, Bool.false_eq_true, if_false]
